@@ -35,8 +35,8 @@ Ok VNone
 Definition s_filter_match (idx_0 : pyv) (idx_1 : pyv) (idx_2 : pyv) (elem : pyv) : res pyv :=
 (t6_ <- (t8_ <- (t7_ <- (py_sub elem idx_0) ;; py_mod t7_ idx_2) ;; py_eq t8_ (VInt (0))) ;; if cond t6_ then (t3_ <- (t5_ <- (py_gt idx_2 (VInt (0))) ;; if cond t5_ then (t4_ <- py_le idx_0 elem ;; if cond t4_ then py_lt elem idx_1 else Ok t4_) else Ok t5_) ;; if cond t3_ then Ok t3_ else (t2_ <- (py_lt idx_2 (VInt (0))) ;; if cond t2_ then (t1_ <- py_ge idx_0 elem ;; if cond t1_ then py_gt elem idx_1 else Ok t1_) else Ok t2_)) else Ok t6_).
 
-(* picked:     return (x.coords[i, mask] - ind.start) // ind.step *)
-(* fragment s_coord_map from sparse/numba_backend/_coo/indexing.py:getitem selector=None srchash=9ede70bf957d0286 *)
+(* picked:     return (x.coords[i, mask].astype(np.intp) - ind.start) // ind.step *)
+(* fragment s_coord_map from sparse/numba_backend/_coo/indexing.py:getitem selector=None srchash=9111ef9ac45b0234 *)
 Definition s_coord_map (c : pyv) (ind : pyv) : res pyv :=
 (t3_ <- (t1_ <- Ok c ;; t2_ <- (attr_start ind) ;; py_sub t1_ t2_) ;; t4_ <- (attr_step ind) ;; py_floordiv t3_ t4_).
 
